@@ -30,6 +30,7 @@ from . import npu_serialisation
 from . import pass_packing
 from . import scheduler
 from . import tensor_allocation
+from . import weight_compressor
 from .debug_database import DebugDatabase
 from .nn_graph import PassPlacement
 from .nn_graph import TensorAllocator
@@ -158,6 +159,10 @@ def _check_schedule(nng, arch, scheduler_options):
 def compiler_driver(nng, arch, options, scheduler_options, network_type, output_basename, subgraph_output = False):
     assert verify_graph_health(nng)
     verbose_progress = scheduler_options.verbose_progress
+
+    # The compressed weight cache is process-wide and keyed by (possibly value based) ids; its entries are tensors of
+    # the graph they were created for and must not be reused by a later compilation in the same process
+    weight_compressor.CompressedWeightCache.cache.clear()
 
     # Pre-optimisation operator tracking
     for sg in nng.subgraphs:
